@@ -188,10 +188,10 @@ func loadKnown() []knownEntry {
 			continue
 		}
 		for _, f := range strings.Fields(l) {
-			if strings.HasPrefix(f, "property=") {
+			if strings.HasPrefix(f, "property=") && e.prop == "" {
 				e.prop = f[9:]
-			} else if strings.HasPrefix(f, "key=") {
-				e.key = f[4:]
+			} else if strings.HasPrefix(f, "key=") && e.key == "" {
+				e.key = f[4:] // only the first key= token names the entry; later ones are free text
 			}
 		}
 		e.text = l
